@@ -164,6 +164,9 @@ struct Case {
     doc: Vec<X>,
     border: u16,
     scale: f32,
+    /// what the TransformConfig says (the document may set either again)
+    given_border: u16,
+    given_scale: f32,
     root_attrs: Vec<(String, String)>,
     extent: Option<B>,
 }
@@ -212,8 +215,21 @@ fn gen_case(rng: &mut Rng) -> Case {
     if rng.chance(1, 5) { root_attrs.push(("version".into(), "1.2".into())); }
     if rng.chance(1, 5) { root_attrs.push(("data-author".into(), "me".into())); }
     if rng.chance(1, 5) { root_attrs.push(("xmlns:xlink".into(), "http://www.w3.org/1999/xlink".into())); }
-    let doc = vec![X::El { name: "svg".into(), attrs: root_attrs.clone(), kids: Some(sc.nodes) }];
-    Case { doc, border: *rng.pick(&[0u16, 5, 5, 10, 3]), scale: *rng.pick(&[1.0f32, 1.0, 2.0, 0.5, 1.5]), root_attrs, extent: sc.extent }
+    // border and scale as the configuration gives them ... and, one case in four, one or both of them set
+    // again by <config> elements in the document: a <config> changes what it names and nothing else
+    let (given_border, given_scale) = (*rng.pick(&[0u16, 5, 5, 10, 3]), *rng.pick(&[1.0f32, 1.0, 2.0, 0.5, 1.5]));
+    let (mut border, mut scale) = (given_border, given_scale);
+    let mut nodes = sc.nodes;
+    if rng.chance(1, 4) {
+        let mut cfgs: Vec<X> = vec![];
+        let which = rng.below(3);
+        if which != 1 { border = *rng.pick(&[2u16, 7, 0]); cfgs.push(X::leaf("config", &[("border", &border.to_string())])); }
+        if which != 0 { scale = *rng.pick(&[2.0f32, 0.5, 3.0]); cfgs.push(X::leaf("config", &[("scale", &f(scale as f64))])); }
+        if rng.chance(1, 2) { cfgs.reverse(); }
+        for (i, c) in cfgs.into_iter().enumerate() { nodes.insert(i.min(nodes.len()), c); }
+    }
+    let doc = vec![X::El { name: "svg".into(), attrs: root_attrs.clone(), kids: Some(nodes) }];
+    Case { doc, border, scale, given_border, given_scale, root_attrs, extent: sc.extent }
 }
 
 /// the property evaluated on the implementation's root element
@@ -302,11 +318,14 @@ pub fn run(rep: &mut Report, tier: &str, seed: u64) -> Result<(), String> {
     for _ in 0..n {
         let case = gen_case(&mut rng);
         let xml = doc_xml(&case.doc);
-        let cfg = svgdx::TransformConfig { border: case.border, scale: case.scale, add_auto_styles: false, ..Default::default() };
+        let cfg = svgdx::TransformConfig { border: case.given_border, scale: case.given_scale, add_auto_styles: false, ..Default::default() };
         corr.case(&xml, true, || json!({"document": xml, "border": case.border, "scale": case.scale}));
         orc.case(&xml, true, || json!({"document": xml, "extent": case.extent.map(|b| b.to_vec())}));
         corr.tally(&format!("root-attrs={}", case.root_attrs.iter().map(|(k, _)| k.as_str()).collect::<Vec<_>>().join("+")));
-        let mut args: Vec<String> = vec![case.border.to_string(), f(case.scale as f64), "1000".into(), "1024".into(), "100".into()];
+        let mut args: Vec<String> = // the model's root computation takes border and scale as arguments and its <config> has no border / scale of
+        // its own: it is handed the values in force after the document's <config> elements (named keys replace,
+        // the others keep what the configuration gave)
+        vec![case.border.to_string(), f(case.scale as f64), "1000".into(), "1024".into(), "100".into()];
         args.extend(doc_toks(&case.doc));
         let argr: Vec<&str> = args.iter().map(|s| s.as_str()).collect();
         let m = drv.call("doc_transform", &argr)?;
